@@ -693,10 +693,10 @@ Lemma bind_params_CI st0 : forall ps j k0 m s k, CI st0 s k -> (forall n, In n p
 Proof.
   induction ps as [|n ps IH]; intros j k0 m s k HC Hps; [simpl; auto|]. cbn [bind_params].
   destruct (j <? k0)%nat; [|simpl; auto].
-  pose proof (set_scalar_good c s n (Some (VTmp (m + (k0 - 1 - j)))) (ci_good _ _ _ HC) (ci_jt _ _ _ HC) I) as Hs.
+  pose proof (set_scalar_good c s n (Some (VTmp (m + (k0 - 1 - j)))) (ci_good _ _ _ HC) I) as Hs.
   pose proof (set_scalar_active s n (Some (VTmp (m + (k0 - 1 - j)))) (ci_good _ _ _ HC)) as Hact.
   destruct (set_scalar c s n (Some (VTmp (m + (k0 - 1 - j))))) as [s1 r1]. simpl in Hact.
-  destruct Hs as (G1 & J1 & R1 & _).
+  destruct Hs as (G1 & J1 & R1 & _). specialize (J1 (ci_jt _ _ _ HC)).
   assert (HC1 : CI st0 s1 k).
   { eapply (CI_step st0 s s1 k (fun x => x = n)); eauto. intros x ->. apply Hps. left; reflexivity. }
   assert (Hlen : length (tvals s1) = length (tvals s)) by (symmetry; eapply Forall2_length, (r_tvals _ _ _ _ R1)).
